@@ -213,6 +213,15 @@ func (c10) Run(c *run.Ctx, phase, idx int) {
 		if pan != nil || err3 != nil || ferr != nil || int(n3) != len(frame) || !bytes.Equal(under.Buf, frame) {
 			c.Violation("C10/bufio-writer/"+T, fmt.Sprintf("through a bufio.Writer: n=%d err=%v flush=%v panic=%v, %d bytes reached the underlying writer (frame %d)", n3, err3, ferr, pan != nil, len(under.Buf), len(frame)), det(nil))
 		}
+		var bb bytes.Buffer
+		var n5 int64
+		var err5 error
+		pan = mon.Guard(func() { n5, err5 = pkt.WriteTo(&bb) })
+		c.Eval(1)
+		c.Count("writer", "bytes.Buffer", 1)
+		if pan != nil || err5 != nil || int(n5) != len(frame) || !bytes.Equal(bb.Bytes(), frame) {
+			c.Violation("C10/bytes-buffer/"+T, fmt.Sprintf("into a *bytes.Buffer: n=%d err=%v panic=%v, %d bytes arrived (frame %d)", n5, err5, pan != nil, bb.Len(), len(frame)), det(nil))
+		}
 		broken := &mon.RecordingWriter{FailAt: 0, Err: mon.ErrInjected}
 		bw2 := bufio.NewWriterSize(broken, 4096)
 		bw2.Write(make([]byte, 5000)) // forces a flush, which fails: the error sticks
